@@ -726,7 +726,7 @@ func (env *Env) call(n *ast.CallExpr) TV {
 		return TV{T: env.e.convert(v.T, v.Ty, t), Ty: t}
 	}
 	switch fname {
-	case "implies", "forall", "old", "atloop", "sameOwed", "sameOwn", "owedNonNeg", "nolocks", "samelocks", "samelocksExcept", "sameWrExcept", "sameRdExcept", "sameelems", "strelems", "elemsbetween", "elemsnot":
+	case "implies", "forall", "forall_lastsplit", "old", "atloop", "sameOwed", "sameOwn", "owedNonNeg", "nolocks", "samelocks", "samelocksExcept", "sameWrExcept", "sameRdExcept", "sameelems", "strelems", "elemsbetween", "elemsnot":
 	default:
 		if _, isDef := env.e.p.cs.Defines[fname]; !isDef {
 			env = env.noSkolem()
@@ -785,7 +785,11 @@ func (env *Env) call(n *ast.CallExpr) TV {
 			return TV{T: "(gs.len " + v.T + ")", Ty: types.Typ[types.Int]}
 		}
 		return env.fail("len of %s", v.Ty)
-	case "forall", "exists":
+	case "forall", "exists", "forall_lastsplit":
+		lastSplit := fname == "forall_lastsplit"
+		if lastSplit {
+			fname = "forall" // same meaning; as a proof goal it is decided in two cases (last index / the others)
+		}
 		// forall(i, lo, hi, body): i ranges over int with lo <= i < hi
 		// forall(x, T, body): x ranges over all values of type T
 		id, ok := n.Args[0].(*ast.Ident)
@@ -838,13 +842,26 @@ func (env *Env) call(n *ast.CallExpr) TV {
 			sk := c.Fresh("sk."+id.Name, bvSort(64))
 			sub.vars[id.Name] = TV{T: sk, Ty: intT}
 			body := sub.evalBool(n.Args[3])
-			return TV{T: implies(and("(bvsle "+lo.T+" "+sk+")", "(bvslt "+sk+" "+hi.T+")"), body), Ty: boolT}
+			rngSk := and("(bvsle "+lo.T+" "+sk+")", "(bvslt "+sk+" "+hi.T+")")
+			if lastSplit {
+				last := eq(sk, "(bvsub "+hi.T+" "+bvLit(64, 1)+")")
+				return TV{T: and(implies(and(rngSk, last), body), implies(and(rngSk, not(last)), body)), Ty: boolT}
+			}
+			return TV{T: implies(rngSk, body), Ty: boolT}
 		}
 		sub.skolem = false
 		body := sub.evalBool(n.Args[3])
 		rng := and("(bvsle "+lo.T+" "+bv+")", "(bvslt "+bv+" "+hi.T+")")
 		if fname == "forall" {
-			return TV{T: fmt.Sprintf("(forall ((%s (_ BitVec 64))) %s)", bv, implies(rng, body)), Ty: boolT}
+			// forall x. R(x) => forall y. B(x,y)  ==  forall x y. R(x) => B(x,y):
+			// one quantifier with both variables lets the solver build
+			// patterns from the terms of B (a nested quantifier whose outer
+			// variable occurs in no term of its own gets none)
+			if binders, inner, ok := splitForall(body); ok {
+				vars := append([]string{bv}, binderNames(binders)...)
+				return TV{T: fmt.Sprintf("(forall ((%s (_ BitVec 64)) %s) %s)", bv, binders, withPattern(implies(rng, inner), vars)), Ty: boolT}
+			}
+			return TV{T: fmt.Sprintf("(forall ((%s (_ BitVec 64))) %s)", bv, withPattern(implies(rng, body), []string{bv})), Ty: boolT}
 		}
 		return TV{T: fmt.Sprintf("(exists ((%s (_ BitVec 64))) %s)", bv, and(rng, body)), Ty: boolT}
 	case "nolocks": // this invocation holds no mutex
@@ -877,6 +894,68 @@ func (env *Env) call(n *ast.CallExpr) TV {
 			return TV{T: sel(c.Get(env.st, dom), k.T), Ty: boolT}
 		}
 		return TV{T: sel(c.Get(env.st, val), k.T), Ty: types.Universe.Lookup("any").Type()}
+	case "sumlens": // sumlens(ss) / sumlens(ss, k): total length of (the first k of) a slice of byte slices
+		v := env.eval(n.Args[0])
+		sl, ok := v.Ty.Underlying().(*types.Slice)
+		if !ok {
+			return env.fail("sumlens: not a slice of slices")
+		}
+		if _, ok := sl.Elem().Underlying().(*types.Slice); !ok {
+			return env.fail("sumlens: not a slice of slices")
+		}
+		comp := env.e.elemComp(sl.Elem())
+		c.Decl("sumlens", "(declare-fun sumlens ((Array (_ BitVec 64) Slice) (_ BitVec 64) (_ BitVec 64)) (_ BitVec 64))")
+		if !c.sumlensAx {
+			c.sumlensAx = true
+			// a write below the summed range does not change the sum (the only
+			// fact about sumlens kept as a quantified axiom; the others are
+			// injected as ground instances, because quantifiers over an array
+			// sort switch off the solver's model-based instantiation)
+			c.lazy = append(c.lazy,
+				lazyAxiom{"sumlens", "(assert (forall ((a (Array (_ BitVec 64) Slice)) (i (_ BitVec 64)) (v Slice) (o (_ BitVec 64)) (l (_ BitVec 64))) (! (=> (bvslt i o) (= (sumlens (store a i v) o l) (sumlens a o l))) :pattern ((sumlens (store a i v) o l)))))"},
+			)
+		}
+		arr := sel(c.Get(env.st, comp), "(s.arr "+v.T+")")
+		ln := "(s.len " + v.T + ")"
+		if len(n.Args) == 2 {
+			k := env.coerce(env.eval(n.Args[1]), types.Typ[types.Int])
+			ln = k.T
+		}
+		term := fmt.Sprintf("(sumlens %s (s.off %s) %s)", arr, v.T, ln)
+		// ground instances: the empty sum is 0; a sum of (non-negative)
+		// lengths is non-negative
+		if !boundVarRe.MatchString(term) { // (not under a quantifier that binds part of the term)
+			c.Assert(eq(fmt.Sprintf("(sumlens %s (s.off %s) %s)", arr, v.T, bvLit(64, 0)), bvLit(64, 0)))
+			c.Assert(implies("(bvsge "+ln+" "+bvLit(64, 0)+")", "(bvsge "+term+" "+bvLit(64, 0)+")"))
+		}
+		return TV{T: term, Ty: types.Typ[types.Int]}
+	case "sumcons", "sumsnoc":
+		// lemma instances of the definition of sumlens, injected as facts
+		// where a contract names them (the two unfoldings create new sumlens
+		// terms and would loop as quantified axioms):
+		//   sumcons(ss):    len(ss) > 0 ==> sumlens(ss) == len(ss[0]) + sumlens(ss[1:])
+		//   sumsnoc(ss, k): 0 <= k < len(ss) ==> sumlens(ss, k+1) == sumlens(ss, k) + len(ss[k])
+		// Both hold of the mathematical sum; the term itself is true.
+		v := env.eval(n.Args[0])
+		sl, ok := v.Ty.Underlying().(*types.Slice)
+		if !ok {
+			return env.fail("%s: not a slice of slices", fname)
+		}
+		comp := env.e.elemComp(sl.Elem())
+		c.Decl("sumlens", "(declare-fun sumlens ((Array (_ BitVec 64) Slice) (_ BitVec 64) (_ BitVec 64)) (_ BitVec 64))")
+		arr := sel(c.Get(env.st, comp), "(s.arr "+v.T+")")
+		off, ln := "(s.off "+v.T+")", "(s.len "+v.T+")"
+		one, zero := bvLit(64, 1), bvLit(64, 0)
+		if fname == "sumcons" {
+			c.Assert(implies("(bvsgt "+ln+" "+zero+")", eq(fmt.Sprintf("(sumlens %s %s %s)", arr, off, ln),
+				fmt.Sprintf("(bvadd (s.len (select %s %s)) (sumlens %s (bvadd %s %s) (bvsub %s %s)))", arr, off, arr, off, one, ln, one))))
+		} else {
+			k := env.coerce(env.eval(n.Args[1]), types.Typ[types.Int])
+			c.Assert(implies(and("(bvsle "+zero+" "+k.T+")", "(bvslt "+k.T+" "+ln+")"), eq(fmt.Sprintf("(sumlens %s %s (bvadd %s %s))", arr, off, k.T, one),
+				fmt.Sprintf("(bvadd (sumlens %s %s %s) (s.len (select %s (bvadd %s %s))))", arr, off, k.T, arr, off, k.T))))
+		}
+		c.Assume("lemma instance of the definition of sumlens (" + fname + ")")
+		return TV{T: "true", Ty: boolT}
 	case "isnew": // isnew(r): reference r was allocated by this invocation (after entry)
 		v := env.eval(n.Args[0])
 		return TV{T: "(> " + v.T + " " + env.e.top(env.old) + ")", Ty: boolT}
@@ -1195,6 +1274,15 @@ func (env *Env) call(n *ast.CallExpr) TV {
 	case "arr": // backing array identity of a slice (mathint)
 		v := env.eval(n.Args[0])
 		return TV{T: "(s.arr " + v.T + ")", Ty: ghostIntType}
+	case "rawelem": // rawelem(s, k): element at absolute index k of the backing array of slice s
+		v := env.eval(n.Args[0])
+		sl, ok := v.Ty.Underlying().(*types.Slice)
+		if !ok {
+			return env.fail("rawelem: not a slice")
+		}
+		k := env.coerce(env.eval(n.Args[1]), types.Typ[types.Int])
+		comp := env.e.elemComp(sl.Elem())
+		return TV{T: sel(sel(c.Get(env.st, comp), "(s.arr "+v.T+")"), k.T), Ty: sl.Elem()}
 	case "off": // offset of a slice in its backing array
 		v := env.eval(n.Args[0])
 		return TV{T: "(s.off " + v.T + ")", Ty: types.Typ[types.Int]}
@@ -1506,3 +1594,109 @@ func stripOld(x ast.Expr) ast.Expr {
 	}
 	return x
 }
+
+
+// splitForall: "(forall (BINDERS) BODY)" -> BINDERS, BODY.
+func splitForall(t string) (string, string, bool) {
+	const pre = "(forall ("
+	if !strings.HasPrefix(t, pre) || !strings.HasSuffix(t, ")") {
+		return "", "", false
+	}
+	depth, i := 1, len(pre)
+	for ; i < len(t) && depth > 0; i++ {
+		switch t[i] {
+		case '(':
+			depth++
+		case ')':
+			depth--
+		case '|':
+			// quoted symbol: skip to the closing bar
+			for i++; i < len(t) && t[i] != '|'; i++ {
+			}
+		}
+	}
+	if depth != 0 || i >= len(t) {
+		return "", "", false
+	}
+	binders := t[len(pre) : i-1]
+	body := strings.TrimSpace(t[i : len(t)-1])
+	if strings.HasPrefix(body, "(!") {
+		return "", "", false // annotated body: leave it alone
+	}
+	return binders, body, true
+}
+
+
+func binderNames(binders string) []string {
+	var out []string
+	for _, m := range regexp.MustCompile(`\((\|[^|]*\|) `).FindAllStringSubmatch(binders, -1) {
+		out = append(out, m[1])
+	}
+	return out
+}
+
+// withPattern: when the body reads an array at an absolute index that is one
+// of the bound variables ((select ARR v), the rawelem form), that read is the
+// natural trigger: (! body :pattern (read)). The read must mention every bound
+// variable. Quantifiers of any other shape are left to the solver.
+func withPattern(body string, vars []string) string {
+	best := ""
+	perVar := map[string]string{}
+	for _, v := range vars {
+		needle := " " + v + ")"
+		for from := 0; ; {
+			i := strings.Index(body[from:], needle)
+			if i < 0 {
+				break
+			}
+			end := from + i + len(needle) // just after the ')' closing the candidate
+			from = end
+			// walk back to the matching '('
+			depth, j := 0, end-1
+			for ; j >= 0; j-- {
+				if body[j] == ')' {
+					depth++
+				} else if body[j] == '(' {
+					depth--
+					if depth == 0 {
+						break
+					}
+				}
+			}
+			if j < 0 {
+				continue
+			}
+			term := body[j:end]
+			if !strings.HasPrefix(term, "(select ") || strings.Contains(term, "forall") {
+				continue
+			}
+			if perVar[v] == "" || len(term) < len(perVar[v]) {
+				perVar[v] = term
+			}
+			all := true
+			for _, w := range vars {
+				if !strings.Contains(term, w) {
+					all = false
+				}
+			}
+			if all && (best == "" || len(term) < len(best)) {
+				best = term
+			}
+		}
+	}
+	if best == "" {
+		// no single read mentions every variable: a multi-pattern of one
+		// read per variable, when each variable has one
+		var parts []string
+		for _, v := range vars {
+			if perVar[v] == "" {
+				return body
+			}
+			parts = append(parts, perVar[v])
+		}
+		return "(! " + body + " :pattern (" + strings.Join(parts, " ") + "))"
+	}
+	return "(! " + body + " :pattern (" + best + "))"
+}
+
+var boundVarRe = regexp.MustCompile(`\|[A-Za-z_0-9.]*![0-9]+\|`)
